@@ -76,8 +76,16 @@ func GoExit() {
 			goFailure = r
 		}
 		mu.Unlock()
+		select {
+		case GoFailed <- struct{}{}:
+		default:
+		}
 	}
 }
+
+// GoFailed is signalled when a goroutine of the compiler ended in a panic: the goroutines that
+// wait for it may now be parked for good, and the caller need not wait for the stall detector.
+var GoFailed = make(chan struct{}, 1)
 
 // TakeGoFailure returns (and clears) the first panic recovered in a goroutine since Reset.
 func TakeGoFailure() interface{} {
@@ -94,6 +102,7 @@ func Reset() {
 	goFailure = nil
 	mu.Unlock()
 	Yields = 0
+	atomic.StoreInt64(&calls, 0)
 	atomic.StoreInt64(&Ticks, 0)
 	atomic.StoreInt64(&depth, 0)
 	Depth = 0
@@ -137,7 +146,16 @@ func Enter() {
 	if DepthBudget > 0 && d > DepthBudget {
 		panic(BudgetExceeded{Kind: "depth", Ticks: atomic.LoadInt64(&Ticks), Depth: d})
 	}
+	if YieldFn != nil {
+		// function entries are hand-over points too (numbered apart from the loop ticks)
+		if c := atomic.AddInt64(&calls, 1); YieldFn(-c) {
+			Yields++
+			runtime.Gosched()
+		}
+	}
 }
+
+var calls int64
 
 func Exit() { Depth = int(atomic.AddInt64(&depth, -1)) }
 
